@@ -428,7 +428,10 @@ fn op_respawn(kills: usize, good_at: usize) -> String {
         let mut session = rdest::Session::new(m, *b"-VERIF-0000000000001");
         for i in 0..kills {
             let cmd = PeerCmd::KillReq { addr: format!("10.9.9.{}:1", i + 1), reason: "gone".to_string() };
-            let _ = session.verif_handle_peer_cmd(cmd).await;
+            // handling a lost connection must not wait for anything either
+            if tokio::time::timeout(std::time::Duration::from_millis(3000), session.verif_handle_peer_cmd(cmd)).await.is_err() {
+                return "resp=y manager=blocked held=y later=0".to_string();
+            }
             // let the new task send its first announce before the next connection is lost
             tokio::time::sleep(std::time::Duration::from_millis(150)).await;
         }
